@@ -3,6 +3,7 @@ package c08
 import (
 	"flag"
 	"os"
+	"sync"
 	"testing"
 	"time"
 
@@ -22,19 +23,29 @@ var cFuzz = newC("native-fuzz")
 
 // fuzzing reports whether the binary runs under `go test -fuzz` (coordinator or worker).
 func fuzzing() bool {
-	for _, n := range []string{"test.fuzz", "test.fuzzworker"} {
-		if fl := flag.Lookup(n); fl != nil && fl.Value.String() != "" && fl.Value.String() != "false" {
-			return true
+	fuzzingOnce.Do(func() {
+		for _, n := range []string{"test.fuzz", "test.fuzzworker"} {
+			if fl := flag.Lookup(n); fl != nil && fl.Value.String() != "" && fl.Value.String() != "false" {
+				fuzzingMode = true
+			}
 		}
-	}
-	return false
+	})
+	return fuzzingMode
 }
+
+var (
+	fuzzingOnce sync.Once
+	fuzzingMode bool
+)
 
 func seedCorpus(f *testing.F, kinds []string, format string) {
 	// As plain tests the seed corpora are a regression sweep that overlaps with hostile-constants and
 	// arbitrary-bytes: in sharded driver runs only shard 0 executes them.
 	if sh := os.Getenv("VT_SHARD"); !fuzzing() && sh != "" && sh != "0" {
 		f.Skip("seed corpus runs on shard 0 only")
+	}
+	if vt.ReplayPath() != "" {
+		f.Skip("replay mode")
 	}
 	for _, kind := range kinds {
 		c := codecs[kind]
